@@ -763,3 +763,227 @@ def replay_fit_transform(obj):
     Tm = (X - e2.mean_) @ e2.pxt_
     d = float(np.abs(np.asarray(T2) - Tm).max()) / (1.0 + float(np.abs(Tm).max()))
     return ("fit_transform(X, Y) is not (X - mean_) @ pxt_ (rel dev %.3g)" % d) if d > 1e-8 else None
+
+
+# ------------------------------------------------------------------------------ family repeated
+def gen_repeated_groups(rng, quick):
+    """Designs whose modified covariance / Gram matrix has REPEATED eigenvalues: two-level full
+    factorials (+ an interaction column), X with orthonormal centred columns (X^T X = c I up to
+    rounding), wide X with X X^T = c (I - 11^T/n).  Full solver, every k, both spaces: the code
+    computes ONE decomposition of the same matrix for every k and truncates it, so the fit for k
+    is the prefix of the fit for k + 1 also inside an eigenspace - checked entrywise, signs
+    included, ungated, by oracle_nested (props/c14.py).  The basis-invariant quantities go through
+    the Coq model as usual (cuts inside an eigenspace are gated there, not in the nestedness test)."""
+    import itertools
+    groups = []
+    ng = 9 if quick else 60
+    for gi in range(ng):
+        g = P.np_rng(rng)
+        kind = ["factorial", "orthocols", "orthorows"][gi % 3]
+        if kind == "factorial":
+            d = rng.choice([3, 3, 4] if quick else [3, 4, 4, 5])
+            X = np.array(list(itertools.product([-1.0, 1.0], repeat=d)))
+            if rng.random() < 0.5:                       # two-factor interaction: still orthogonal
+                X = np.hstack([X, (X[:, 0] * X[:, 1])[:, None]])
+        elif kind == "orthocols":
+            n, m = rng.randint(5, 8), rng.randint(2, 4)
+            Z = g.normal(size=(n, m))
+            Z -= Z.mean(axis=0)
+            X = 2.0 * np.linalg.qr(Z)[0]
+        else:
+            n = rng.randint(3, 5)
+            m = rng.randint(n + 1, 8)
+            Z = np.linalg.qr(g.normal(size=(m, n)))[0].T          # orthonormal rows
+            X = 2.0 * (Z - Z.mean(axis=0))
+        n, m = X.shape
+        p = rng.choice([1, 2])
+        Wt = g.normal(size=(m, p))
+        Y = X @ Wt + 0.3 * g.normal(size=(n, p))
+        Y -= Y.mean(axis=0)
+        Xn = g.normal(size=(3, m)) * 1.5
+        Yn = Xn @ Wt + 0.3 * g.normal(size=(3, p))
+        ds = dict(family="repeated", design=kind, n=n, m=m, p=p, q=3, rank_made=None, X=X, Y=Y, Xn=Xn, Yn=Yn,
+                  centred=True)
+        base = P.gen_config(rng, ds, reg=rng.choice(["default", "ridge", "linreg"]))
+        base["a"] = rng.choice([0.25, 0.5, 0.9, 1.0])
+        base["y1d"] = False
+        kmax = min(n, m)
+        for sp in ["feature", "sample"]:
+            groups.append((ds, [dict(base, space=sp, k=k) for k in range(1, kmax + 1)]))
+    return groups
+
+
+# ------------------------------------------------------------------------------ family presentation
+PRESENTATIONS = ["int64", "int32", "int64_yfloat", "list", "fortran", "float32"]
+
+
+def gen_int_dataset(rng):
+    """Integer-valued X with column sums EXACTLY zero (centred in every dtype), integer centred Y."""
+    g = P.np_rng(rng)
+    fam = rng.choice(["int_tall", "int_tall", "int_wide", "int_square", "int_rankdef"])
+    if fam == "int_tall":
+        m = rng.randint(2, 4)
+        n = rng.randint(m + 2, 7)
+    elif fam == "int_wide":
+        n = rng.randint(3, 5)
+        m = rng.randint(n + 1, 7)
+    elif fam == "int_square":
+        n = m = rng.randint(3, 5)
+    else:
+        n, m = rng.randint(4, 6), rng.randint(3, 6)
+
+    def centred_ints(rows, cols, lo=-4, hi=4):
+        A = g.integers(lo, hi + 1, size=(rows, cols))
+        A[-1] = -A[:-1].sum(axis=0)
+        return A
+    if fam == "int_rankdef":
+        r = rng.randint(1, max(1, min(n - 1, m) - 1))
+        X = centred_ints(n, r, -2, 2) @ g.integers(-2, 3, size=(r, m))
+    else:
+        r = None
+        X = centred_ints(n, m)
+    p = rng.choice([1, 1, 2, 3])
+    Wt = g.integers(-2, 3, size=(m, p))
+    Y = X @ Wt + centred_ints(n, p, -2, 2)
+    Xn = g.normal(size=(3, m)) * 1.5
+    Yn = Xn @ Wt + 0.3 * g.normal(size=(3, p))
+    return dict(family=fam, n=n, m=m, p=p, q=3, rank_made=r, X=X.astype(float), Y=Y.astype(float),
+                Xn=Xn, Yn=Yn, centred=True, integer=True)
+
+
+def gen_int_groups(rng, quick):
+    groups = []
+    for gi in range(24 if quick else 200):
+        ds = gen_int_dataset(rng)
+        base = P.gen_config(rng, ds, reg=rng.choice(["default", "ridge", "linreg", "pre_W"]))
+        if base["a"] == 0.0:
+            base["a"] = 0.5
+        kmax = min(ds["n"], ds["m"])
+        sp = rng.choice(["feature", "sample"])
+        ks = sorted(set([rng.randint(1, kmax), kmax]))
+        groups.append((ds, [dict(base, space=sp, k=k) for k in ks]))
+    return groups
+
+
+def _present(A, kind):
+    A = np.asarray(A)
+    if kind in ("int64", "int64_yfloat"):
+        return A.astype(np.int64)
+    if kind == "int32":
+        return A.astype(np.int32)
+    if kind == "float32":
+        return A.astype(np.float32)
+    if kind == "list":
+        return A.tolist()
+    if kind == "fortran":
+        return np.asfortranarray(A, dtype=float)
+    raise ValueError(kind)
+
+
+def fit_presented(ds, cfg, kind):
+    from skmatter.decomposition import PCovR
+    reg, Yfit, Wfit = P._regressor(ds, cfg)
+    Xv = _present(ds["X"], kind)
+    if reg == "precomputed":                                # Yhat is not integer valued
+        Yv = (np.asarray(Yfit).tolist() if kind == "list" else
+              np.asarray(Yfit, dtype=np.float32) if kind == "float32" else Yfit)
+    elif kind == "int64_yfloat":
+        Yv = Yfit
+    else:
+        Yv = _present(Yfit, kind)
+    est = PCovR(mixing=cfg["a"], n_components=cfg["k"], space=cfg["space"], svd_solver="full",
+                tol=P.TOL, regressor=reg, random_state=0)
+    if reg == "precomputed" and Wfit is not None:
+        est.fit(Xv, Yv, W=Wfit)
+    else:
+        est.fit(Xv, Yv)
+    return est
+
+
+def run_presentations(ctx, report, groups):
+    """The same integer-valued centred data handed to fit as int64 / int32 / nested lists /
+    Fortran-ordered float64 / float32 (and int64 X with float Y) must give the fit obtained from
+    C-ordered float64 arrays - which the main family ties to the Coq model (the same groups are
+    cases there).  Exact presentations: rel 1e-6 on the invariant outputs (observed <= 4e-9 over 40 seeds), only for k within the
+    numerically clean rank; float32: rel 2e-3 on full-rank tall data with a well-conditioned
+    retained spectrum.  On a difference the C14 clauses are evaluated on the presented fit."""
+    stats = dict(fits=0, compared=0, agree=0, kinds={}, skipped={})
+    for ds, cfgs in groups:
+        X = ds["X"]
+        n = ds["n"]
+        for cfg in cfgs:
+            with warnings.catch_warnings():
+                warnings.simplefilter("ignore")
+                try:
+                    ref, Ym, Yh, W = P.fit_impl(ds, cfg)
+                    ref_obs, _ = P.observe(ref, ds, Ym)
+                except Exception:                            # noqa  (reported by the main family)
+                    continue
+                S = np.asarray(ref.singular_values_, dtype=float) ** 2
+                clean = bool(S.min() > 1e-6 * S.max())
+                for kind in PRESENTATIONS:
+                    tol = 1e-6
+                    if kind == "float32":
+                        if ds["family"] != "int_tall" or not S.min() > 1e-2 * S.max() or cfg["reg"] == "linreg":
+                            stats["skipped"]["float32 outside full-rank well-conditioned tall data"] = \
+                                stats["skipped"].get("float32 outside full-rank well-conditioned tall data", 0) + 1
+                            continue
+                        tol = 2e-3
+                    elif not clean:
+                        stats["skipped"]["k above the numerically clean rank"] = \
+                            stats["skipped"].get("k above the numerically clean rank", 0) + 1
+                        continue
+                    case = dict(presentation=dict(kind=kind, dataset=P.jsonable({k: ds[k] for k in ("family", "n", "m", "p", "q", "X", "Y", "Xn", "Yn", "centred")}), config=cfg))
+                    stats["fits"] += 1
+                    stats["kinds"][kind] = stats["kinds"].get(kind, 0) + 1
+                    try:
+                        est = fit_presented(ds, cfg, kind)
+                        obs, T = P.observe(est, ds, Ym)
+                    except Exception as e:                   # noqa
+                        report(ctx, "C14 fails on the implementation: X/Y handed in as %s: fit / transform / predict raised %s: %s"
+                               % (kind, type(e).__name__, str(e)[:140]), dict(case=case), found_input=True)
+                        continue
+                    idx = [0, 1, 2, 3, 5, 6, 7, 8, 10] if kind == "float32" else range(len(ref_obs))
+                    dev, worst = 0.0, None
+                    for i in idx:
+                        a, b = np.asarray(obs[i], dtype=float), np.asarray(ref_obs[i], dtype=float)
+                        d = (float(np.abs(a - b).max()) / (1.0 + float(np.abs(b).max()))) if a.shape == b.shape and np.all(np.isfinite(a)) else float("inf")
+                        if d > dev:
+                            dev, worst = d, P.OUTPUT_NAMES[i]
+                    stats["compared"] += 1
+                    if dev <= tol:
+                        stats["agree"] += 1
+                        continue
+                    msg = presented_clause_failure(est, X, T, tol)
+                    report(ctx, ("C14 fails on the implementation: X/Y handed in as %s: %s" % (kind, msg)) if msg else
+                           "correspondence broken: the fit depends on the presentation of the input: %s instead of float64 changes %s (rel dev %.3g)"
+                           % (kind, worst, dev), dict(case=case), found_input=bool(msg))
+    return stats
+
+
+def presented_clause_failure(est, X, T, tol):
+    t = max(1e-6, 10 * tol)
+    S = np.asarray(est.singular_values_, dtype=float) ** 2
+    pred, pt = np.asarray(est.predict(X), dtype=float), np.asarray(est.predict(T=T), dtype=float)
+    if np.abs(pred - pt).max() > t * (1 + np.abs(pred).max()):
+        return "predict(X) != predict(T=transform(X)) (max dev %.3g)" % np.abs(pred - pt).max()
+    G = np.asarray(T.T @ T, dtype=float)
+    if np.abs(G - np.diag(S)).max() > t * (1 + S.max()):
+        return "T^T T is not diag(retained eigenvalues) (max dev %.3g)" % np.abs(G - np.diag(S)).max()
+    back = np.asarray(est.transform(est.inverse_transform(T)), dtype=float)
+    if np.abs(back - T).max() > t * (1 + np.abs(T).max()):
+        return "transform(inverse_transform(T)) != T (max dev %.3g)" % np.abs(back - T).max()
+    return None
+
+
+def replay_presentation(obj):
+    ds = P.ds_from_json(obj["dataset"])
+    cfg, kind = obj["config"], obj["kind"]
+    with warnings.catch_warnings():
+        warnings.simplefilter("ignore")
+        try:
+            est = fit_presented(ds, cfg, kind)
+            T = est.transform(_present(ds["X"], kind) if kind != "list" else ds["X"])
+        except Exception as e:                               # noqa
+            return "raised %s: %s" % (type(e).__name__, str(e)[:140])
+        return presented_clause_failure(est, ds["X"], T, 2e-3 if kind == "float32" else 1e-6)
